@@ -29,8 +29,8 @@ import vlib
 # tier -> list of (Letters, Extra, MaxKeys, MaxEnters[, BreakInLiterals]); Extra = {92} puts the backslash into the alphabet;
 # BreakInLiterals lets Enter be pressed inside a literal too (the console enters it as a blank)
 MC = {
-    "quick": [("{97}", "{92}", 8, 3), ("{97, 98}", "{}", 7, 2), ("{97}", "{}", 8, 3, True)],
-    "thorough": [("{97}", "{92}", 9, 4), ("{97}", "{}", 10, 4), ("{97, 98}", "{}", 9, 3), ("{97}", "{}", 9, 3, True)],
+    "quick": [("{97}", "{92}", 8, 3), ("{97, 98}", "{}", 7, 2), ("{97}", "{}", 8, 3, True), ("{47}", "{}", 8, 3, True)],   # 47 = '/': "//" is text
+    "thorough": [("{97}", "{92}", 9, 4), ("{97}", "{}", 10, 4), ("{97, 98}", "{}", 9, 3), ("{97}", "{}", 9, 3, True), ("{47}", "{}", 9, 3, True)],
 }
 MODES = ["typed", "lines", "paste", "bracketed", "bracketed_enter", "bracketed4"]
 # long random inputs (code -> spec): number of inputs per tier and their read schedules
